@@ -62,7 +62,9 @@ func templateObls(w *World, keep func(name string) bool) ([]*Obligation, []strin
 // documented operation applied to the values of the children, and evaluates
 // the children the definition says, once, left to right.
 func genC01(w *World, res *CheckResult) {
-	obls, notes := templateObls(w, func(n string) bool { return reValueObl.MatchString(n) && !reC15Tmpl.MatchString(n) })
+	obls, notes := templateObls(w, func(n string) bool {
+		return reValueObl.MatchString(n) && !reC15Tmpl.MatchString(n) || reC18Tmpl.MatchString(n) && !strings.HasPrefix(n, "lemma:")
+	})
 	res.Obls = append(res.Obls, obls...)
 	res.Assumptions = append(res.Assumptions, notes...)
 	g := genRun(w)
@@ -78,7 +80,7 @@ func genC01(w *World, res *CheckResult) {
 		}
 	}
 	res.Assumptions = append(res.Assumptions,
-		"fragment: the node kinds whose code has no backward jump and no repeated segment (literals, identifiers, unary, binary incl. short-circuit, matches, property, index, slice, conditional, closure body); collection builtins, array/map literals, function and method calls are covered for stack/scope/jump shape by C05 but their values are not decided here",
+		"fragment: the node kinds whose code has no backward jump and no repeated segment (literals, identifiers, unary, binary incl. short-circuit, matches, property, index, slice, conditional, closure body, #), and the collection builtins through their semantic loop invariants (shared with C18); array/map literals, function and method calls are covered for stack/scope/jump shape by C05 but their values are not decided here",
 		"induction hypothesis (contract of compile): a child segment, run from any stack, pushes ev(child) and has no other effect on the stack; ev(child) is the value the definition assigns to the child (structural induction over finite trees is the meta-step)",
 		"the run-time helpers (vm.add, vm.less, vm.fetch, vm.slice, vm.in, ...) appear as uninterpreted pure functions of their operands: that they compute the documented arithmetic is C14 (numbers); fetch/slice/in/length against the definition are not decided here",
 		"OpRange, OpFetchMap: operand order only (their result is an uninterpreted function of the operands in the order VM.Run pops them, transcribed by hand from vm.go)",
